@@ -19,6 +19,9 @@
 //	seq t<ms> setb t<name> p{ schema } | delb t<name>  AddTool / RemoveTools on a SECOND Server behind the same handler (getServer
 //	                                               returns it for the path /mcp/b)                 -> ok
 //	seq t<ms> callb t<name> P o{ … }               a second client connects to /mcp/b, lists all tools, CallTool, closes -> as `call`
+//	seq t<ms> bad t<name> | unbad t<name>          a FOREIGN server: from now on tools/list results carry the tool with INVALID
+//	                                               x-mcp-header annotations (written by the middleware; the SDK's AddTool would
+//	                                               refuse them) / as registered again             -> ok
 //	seq t<ms> look t<name>                         64 x ClientSession.lookupTool                 -> L{ the distinct answers }
 //	seq t<ms> call t<name> P o{ … }                ClientSession.CallTool                        -> H{ Mcp-Param-* sent } ok same | rej <code> handler=<n> | …
 //
@@ -233,6 +236,8 @@ type pfqWorld struct {
 	pv       string
 	sub      bool
 	flight   *pfqFlight // the ListTools in flight (lsend … lrecv), if any
+	bad      map[string]int // tools listed with invalid annotations (value: which kind of invalid)
+	badN     int
 }
 
 type pfqFlight struct {
@@ -372,6 +377,17 @@ func (w *pfqWorld) open(kind, pv string, pageSize int, sub bool) {
 				w.mu.Unlock()
 				if r, ok := res.(*ListToolsResult); ok && err == nil && ttl != 0 {
 					r.TTLMs = ttl
+				}
+				if r, ok := res.(*ListToolsResult); ok && err == nil {
+					w.mu.Lock()
+					for i, t := range r.Tools {
+						if k, isBad := w.bad[t.Name]; isBad {
+							cp := *t
+							cp.InputSchema = json.RawMessage(pfqInvalidSchema(k))
+							r.Tools[i] = &cp
+						}
+					}
+					w.mu.Unlock()
 				}
 			}
 			return res, err
@@ -557,6 +573,19 @@ func (w *pfqWorld) exec(f []string, lastNext *string) (op, obs string, tags []st
 			return op, "err:" + hxs(firstN(fl.err.Error(), 60)), []string{"seq-lrecv", "seq-list-err"}
 		}
 		return op, "hit0 " + pfqToolsTok(fl.res.Tools) + " " + pfqCursorTok(fl.res.NextCursor), []string{"seq-lrecv", fmt.Sprintf("seq-page%d", min(len(fl.res.Tools), 4))}
+	case "bad", "unbad":
+		w.mu.Lock()
+		if w.bad == nil {
+			w.bad = map[string]int{}
+		}
+		if f[0] == "bad" {
+			w.bad[unhex(f[1][1:])] = w.badN
+			w.badN++
+		} else {
+			delete(w.bad, unhex(f[1][1:]))
+		}
+		w.mu.Unlock()
+		return op, "ok", []string{"seq-" + f[0]}
 	case "setb":
 		ps, _ := pfqPropsFromTok(f[2:])
 		w.srvB.AddTool(&Tool{Name: unhex(f[1][1:]), InputSchema: json.RawMessage(pfSchemaJSON(ps))}, w.toolHandler)
@@ -689,6 +718,26 @@ func (w *pfqWorld) exec(f []string, lastNext *string) (op, obs string, tags []st
 		return op, pfParamHdrTok(hdr) + " " + out, tags
 	}
 	return op, "bad-op", nil
+}
+
+// pfqInvalidSchemas: input schemas whose x-mcp-header annotations validateParamHeaderAnnotations refuses.
+var pfqInvalidSchemas = []string{
+	`{"type":"object","properties":{"region":{"type":"string","x-mcp-header":"Bad Name"}}}`,
+	`{"type":"object","properties":{"region":{"type":"string","x-mcp-header":"Region"},"zone":{"type":"string","x-mcp-header":"region"}}}`,
+	`{"type":"object","properties":{"region":{"type":"object","x-mcp-header":"Region"}}}`,
+	`{"type":"object","properties":{"region":{"type":"string","x-mcp-header":5}}}`,
+	`{"type":"object","properties":{"region":{"type":"string","x-mcp-header":""}}}`,
+	`{"type":"object","properties":{"region":{"type":"array","x-mcp-header":"Region"}}}`,
+}
+
+func pfqInvalidSchema(k int) string {
+	for i := 0; i < len(pfqInvalidSchemas); i++ {
+		sc := pfqInvalidSchemas[(k+i)%len(pfqInvalidSchemas)]
+		if validateParamHeaderAnnotations(&Tool{Name: "t", InputSchema: json.RawMessage(sc)}) != nil {
+			return sc
+		}
+	}
+	return pfqInvalidSchemas[0]
 }
 
 // pfqCallOut: how a CallTool ended (the handler ran once with the arguments sent / otherwise / refused with a code).
@@ -1123,6 +1172,36 @@ func (g *pfGen) pfqGenerate() []string {
 			callAll(n, tools[n].schema)
 			callAll(n, tools[n].schema)
 			continue
+		}
+		if g.epoch >= 6 && g.chance(7) {
+			// a foreign server: a registered tool is LISTED with invalid annotations from now on; the change is announced (the
+			// tool is re-registered as it is) or not; the client lists again and calls; sometimes the listing is repaired
+			if ns := names(); len(ns) > 0 {
+				n := ns[g.rng.Intn(len(ns))]
+				add("bad t" + hxs(n))
+				if g.chance(75) {
+					setTool(n, tools[n].schema)
+					add(fmt.Sprintf("adv %d", []int{5, 10, 11, 50}[g.rng.Intn(4)]))
+				}
+				listAll()
+				callAll(n, tools[n].schema)
+				if g.chance(50) {
+					nm, _ := json.Marshal(n)
+					params := json.RawMessage(`{"name":` + string(nm) + `,"arguments":{}}`)
+					add("look t" + hxs(n))
+					add("call t" + hxs(n) + " " + pfParamsTok(params))
+				}
+				if g.chance(50) {
+					add("unbad t" + hxs(n))
+					if g.chance(70) {
+						setTool(n, tools[n].schema)
+						add("adv 11")
+					}
+					listAll()
+					callAll(n, tools[n].schema)
+				}
+				continue
+			}
 		}
 		r := g.rng.Intn(100)
 		switch {
